@@ -273,8 +273,9 @@ class Scenario(object):
             self.fee_model = PercentFeeModel(commission_pct=fee[1], tax_pct=fee[2])
             self.rates = (F(fee[1]), F(fee[2]))
         self.exchange = SimulatedExchange(self.t)
+        self.ccy = cfg.get('base_currency', 'USD')
         self.broker = SimulatedBroker(
-            self.t, self.exchange, self.book, account_id='acct',
+            self.t, self.exchange, self.book, account_id='acct', base_currency=self.ccy,
             initial_funds=cfg['initial_funds'], fee_model=self.fee_model)
         self.broker.cash_balances = WatchedDict(self.broker.cash_balances)
         self.model = Model(cfg['initial_funds'] if cfg['initial_funds'] > 0 else 0)
@@ -335,7 +336,7 @@ class Scenario(object):
         """Return set of acceptable exception type names, or {'ok'}."""
         k = op[0]
         b = self.broker
-        live_master = b.get_account_cash_balance('USD')
+        live_master = b.get_account_cash_balance(self.ccy)
         if k == 'acct_sub':
             return {'ValueError'} if op[1] < 0 else {'ok'}
         if k == 'acct_wd':
@@ -413,12 +414,17 @@ class Scenario(object):
             return {'ValueError'} if bad else {'ok'}
         if k == 'pf_txn':
             t = ts(op[2])
-            return {'ValueError'} if t < p.current_dt else {'ok'}
+            pos = p.pos_handler.positions.get(op[3])
+            # a position remembers the time of its last mark / fill: a transaction earlier than that is refused too
+            behind = pos is not None and t < pos.current_dt
+            return {'ValueError'} if (t < p.current_dt or behind) else {'ok'}
         if k == 'pf_mark':
             asset, price, t = op[2], op[3], ts(op[4])
             if asset not in mp.pos or mp.pos[asset].net == 0:
                 return {'ok'}
-            return {'ValueError'} if (price < 0 or t < p.current_dt) else {'ok'}
+            pos = p.pos_handler.positions.get(asset)
+            behind = pos is not None and t < pos.current_dt
+            return {'ValueError'} if (price < 0 or t < p.current_dt or behind) else {'ok'}
         raise ValueError(op)
 
     # -- execution ----------------------------------------------------------
@@ -582,9 +588,11 @@ class Scenario(object):
                 return k + '/backwards-clock'
             return k + ('/negative' if op[3] < 0 else '/over')
         if k == 'pf_mark':
-            return k + ('/negative' if op[3] < 0 else '/backwards-clock')
+            if op[3] < 0:
+                return k + '/negative'
+            return k + ('/backwards-clock' if ts(op[4]) < self._clock_before[op[1]] else '/behind-position-clock')
         if k == 'pf_txn':
-            return k + '/backwards-clock'
+            return k + ('/backwards-clock' if ts(op[2]) < self._clock_before[op[1]] else '/behind-position-clock')
         return k
 
     def state_class(self):
@@ -834,11 +842,14 @@ class Scenario(object):
         k = op[0]
         # (1) balances equal the shadow ledger
         am = after['master']
-        if self.broker is not None and not close(am['USD'], m.master, m.mflow):
+        base = getattr(self, 'ccy', 'USD')
+        if self.broker is not None and not close(am[base], m.master, m.mflow):
             self.viol('C01', 'master-cash/%s' % k,
-                      'master cash %r differs from ledger %s after %r' % (am['USD'], float(m.master), op),
+                      'master cash (%s) %r differs from ledger %s after %r' % (base, am[base], float(m.master), op),
                       ledger=float(m.master))
-        for ccy in ('GBP', 'EUR'):
+        for ccy in ('USD', 'GBP', 'EUR'):
+            if ccy == base:
+                continue
             if self.broker is not None and am.get(ccy) != 0.0:
                 self.viol('C01', 'other-currency/%s' % k, 'balance in %s moved: %r' % (ccy, am.get(ccy)))
         acc.count('C01:balance_checks', 1 + len(m.ports))
@@ -854,11 +865,11 @@ class Scenario(object):
                           delivered=delivered)
         # (2) zero-sum transfers, on the floats themselves
         if k in ('p_sub', 'p_wd'):
-            dm = F(after['master']['USD']) - F(before['master']['USD'])
+            dm = F(after['master'][base]) - F(before['master'][base])
             dp = F(after['ports'][op[1]]['cash']) - F(before['ports'][op[1]]['cash'])
             # the two deltas are differences of floats: each carries the rounding of its own balance
             mp_ = m.ports[op[1]]
-            scale = (m.mflow + mp_.flow + abs(F(before['master']['USD'])) + abs(F(before['ports'][op[1]]['cash']))
+            scale = (m.mflow + mp_.flow + abs(F(before['master'][base])) + abs(F(before['ports'][op[1]]['cash']))
                      + abs(F(after['ports'][op[1]]['cash'])) + 1)
             if abs(dm + dp) > Fraction(core.REL) * scale:
                 self.viol('C01', 'transfer-not-zero-sum/%s' % k,
@@ -880,7 +891,7 @@ class Scenario(object):
                               'portfolio %s cash changed by %r' % (pid, op))
             acc.count('C01:no_change_checks')
         if k in ('update', 'exec'):
-            if F(before['master']['USD']) != F(after['master']['USD']):
+            if self.canon(before)['master'] != self.canon(after)['master']:
                 self.viol('C01', 'unexpected-cash-change/%s' % k, 'master cash changed by %r' % (op,))
             touched = {d['pid'] for d in delivered}
             for pid in before['ports']:
@@ -1429,6 +1440,7 @@ def make_cfg(rng):
         fee = ['pct', rate(), rate()]
     return {
         'start': rng.choice(STARTS),
+        'base_currency': rng.choice(['USD', 'USD', 'USD', 'GBP', 'EUR']),
         'initial_funds': rng.choice([0.0, 1e4, 1e6, 123456.78, rand_amount(rng)]),
         'fee': fee,
         'quotes': {a: rand_quote(rng, used) for a in assets},
@@ -1497,7 +1509,7 @@ class Gen(object):
             f = self.fault()
             if f is not None:
                 return f
-        master = b.get_account_cash_balance('USD')
+        master = b.get_account_cash_balance(sc.ccy)
         r = rng.random()
         pid = rng.choice(pids)
         assets = sc.cfg['assets']
@@ -1546,15 +1558,16 @@ class Gen(object):
         b = sc.broker
         pids = list(sc.model.ports)
         pid = rng.choice(pids)
-        master = b.get_account_cash_balance('USD')
+        master = b.get_account_cash_balance(sc.ccy)
         kinds = ['acct_sub_neg', 'acct_wd_neg', 'acct_wd_over', 'p_sub_neg', 'p_sub_unknown', 'p_sub_over',
                  'p_wd_neg', 'p_wd_unknown', 'p_wd_over', 'create_dup', 'get_cash_unknown', 'get_mv_unknown',
                  'get_eq_unknown', 'get_dict_unknown', 'badccy', 'new_broker', 'order_unknown']
         if self.faults == 'benign+back':
             kinds += ['update_back', 'update_back', 'update_back', 'update_back', 'update_back_ok', 'update_back_ok']
         if self.faults == 'all':
-            kinds += ['update_back', 'update_back', 'update_back', 'update_back_ok', 'neg_mark', 'neg_mark', 'pf_sub_back', 'pf_sub_neg',
-                      'pf_wd_back', 'pf_wd_neg', 'pf_wd_over', 'pf_txn_back', 'pf_mark_neg', 'pf_mark_back']
+            kinds += ['update_back', 'update_back', 'update_back', 'update_back_ok', 'update_back_pos', 'neg_mark', 'neg_mark', 'pf_sub_back', 'pf_sub_neg',
+                      'pf_wd_back', 'pf_wd_neg', 'pf_wd_over', 'pf_txn_back', 'pf_mark_neg', 'pf_mark_back',
+                      'pf_txn_behind_pos', 'pf_txn_behind_pos', 'pf_mark_behind_pos']
         k = rng.choice(kinds)
         amt = rand_amount(rng) + 0.01
         over = lambda x: float(max(x, 0.0)) * rng.choice([1.0000001, 1.5, 10.0]) + rng.choice([0.01, 1.0, 1e6])  # noqa
@@ -1600,6 +1613,16 @@ class Gen(object):
             cand = d + pd.Timedelta(hours=rng.choice([14, 15, 18, 20]), minutes=30)
             if cand < latest:
                 back = cand
+        if k == 'update_back_pos':
+            lo = max(clocks.values())
+            hi = lo
+            for p_ in pids:
+                for pos in b.portfolios[p_].pos_handler.positions.values():
+                    hi = max(hi, pos.current_dt)
+            if not (lo < hi):
+                return None
+            self.queue.append(['update', str(self.tmax)])
+            return ['update', str(lo + (hi - lo) * rng.choice([0.0, 0.5, 0.999]))]
         if k == 'update_back_ok':
             lo = max(clocks.values())
             for p in pids:
@@ -1675,6 +1698,16 @@ class Gen(object):
             if not held:
                 return None
             return ['pf_mark', pid, rng.choice(held), rand_price(rng), earlier]
+        if k in ('pf_txn_behind_pos', 'pf_mark_behind_pos'):
+            cands = [(a, b.portfolios[pid].pos_handler.positions[a].current_dt) for a in held
+                     if b.portfolios[pid].pos_handler.positions[a].current_dt > clock]
+            if not cands:
+                return None
+            a, pclock = rng.choice(cands)
+            between = str(clock + (pclock - clock) * rng.choice([0.0, 0.5, 0.999]))
+            if k == 'pf_mark_behind_pos':
+                return ['pf_mark', pid, a, rand_price(rng), between]
+            return ['pf_txn', pid, between, a, self.qty(pid, a), rand_price(rng), 0.0]
         return None
 
 
